@@ -324,7 +324,7 @@ def gen_history(seed, wl, cfg=None):
             inp = rng.choice(sibs)
             opts, param, optsig = p[1], p[2], p[3]
         else:
-            if table_mutating and rng.random() < 0.06:
+            if table_mutating and rng.random() < 0.10:
                 # inputs that write into process-lifetime tables (elements the
                 # valence table lacks), in their two flavours
                 inp = rng.choice(table_mutating)
@@ -446,7 +446,10 @@ def gen_repeat(seed, wl, cfg=None):
     special = [f for f in NONCOV_FAMILIES + BIG_OK if f in fams]
     hot = [f for f in HOT_FAMILIES if f in fams]
     u = rng.random()
-    if special and u < 0.5:
+    big = [f for f in BIG_OK if f in fams]
+    if big and u < 0.3:
+        fam = rng.choice(big)       # the only inputs with a coupled system of three groups
+    elif special and u < 0.55:
         fam = rng.choice(special)
     elif hot and u < 0.8:
         fam = rng.choice(hot)
